@@ -1,5 +1,6 @@
 import VtlModel.Sem.Sexp
 import VtlModel.Sem.Eval
+import VtlModel.Sem.Cond
 /-! Decoding of protocol requests into model terms, encoding of results. -/
 namespace VtlModel.Sem
 open VtlModel
@@ -100,6 +101,19 @@ def decD : Nat → Sexp → Option DExpr
         | .list [a, v] => do pure ((← name? a), (← decValue v))
         | _ => none)
       pure (.sub (← decD k d) m)
+  | k+1, .list [.atom "ifd", c, cond, t, e] => do
+      let c' ← decD k c
+      let cond' ← decS (depth cond + 1) cond
+      match t, e with
+      | .list [.atom "sc", tv], .list [.atom "sc", _] => let _ ← decValue tv; none   -- at least one dataset branch
+      | .list [.atom "sc", tv], e => do
+          let v ← decValue tv
+          pure (.app2 (fun c e => condD cond' v .null c none (some e)) c' (← decD k e))
+      | t, .list [.atom "sc", ev] => do
+          let v ← decValue ev
+          pure (.app2 (fun c t => condD cond' .null v c (some t) none) c' (← decD k t))
+      | t, e => do
+          pure (.app3 (fun c t e => condD cond' .null .null c (some t) (some e)) c' (← decD k t) (← decD k e))
   | k+1, .list [.atom "union", a, b] => do pure (.union (← decD k a) (← decD k b))
   | k+1, .list [.atom "intersect", a, b] => do pure (.intersect (← decD k a) (← decD k b))
   | k+1, .list [.atom "setdiff", a, b] => do pure (.setdiff (← decD k a) (← decD k b))
